@@ -43,6 +43,10 @@ def itemsBelow (s : Search F) (k : Nat) : Bool :=
 def segAt (a : Array (V3 F × V3 F)) (i : Int) : V3 F × V3 F := a.getD i.toNat (zero3, zero3)
 def triAt (a : Array (V3 F × V3 F × V3 F)) (i : Int) : V3 F × V3 F × V3 F := a.getD i.toNat (zero3, zero3, zero3)
 
+def ptsOf : List F → List (V3 F)
+  | a :: b :: c :: rest => v3 a b c :: ptsOf rest
+  | _ => []
+
 def step (st : St) (line : String) : St × String :=
   match words line with
   | ["reset"] => ({}, "ok")
@@ -101,6 +105,28 @@ def step (st : St) (line : String) : St × String :=
           else if k == "3" then go st.tris.size (fun c => let t := triAt st.tris c; [t.1, t.2.1, t.2.2])
           else (st, "bad-op")
       | none => (st, "bad-op")
+  | "walldist" :: k :: m :: ws => match m.toNat?, parseFs? ws with
+      | some mask, some fs =>
+          if mask < 1 || mask > 7 || fs.length % 3 != 0 || !(k == "2" || k == "3") then (st, "bad-op") else
+          -- element i carries face id 1 + i%3; id j is a wall iff bit j-1 of mask is set
+          let isWall (i : Nat) : Bool := (mask >>> (i % 3)) % 2 == 1
+          let qs := ptsOf fs
+          let fmt (ds : List F) := "ok" ++ String.join (ds.map fun d => " " ++ fmtF d)
+          if k == "2" then
+            let walls := ((List.range st.segs.size).filter isWall).map fun i => st.segs.getD i (zero3, zero3)
+            let wa := walls.toArray
+            match wallBuild (Int.ofNat wa.size) (fun c => let s := segAt wa c; [s.1, s.2])
+                ((List.range wa.size).map Int.ofNat) with
+            | (.ok, some s) => (st, fmt (qs.map fun x => s.nearestSeg (segAt wa) x dblMax))
+            | (e, _) => (st, statusName e)
+          else
+            let walls := ((List.range st.tris.size).filter isWall).map fun i => st.tris.getD i (zero3, zero3, zero3)
+            let wa := walls.toArray
+            match wallBuild (Int.ofNat wa.size) (fun c => let t := triAt wa c; [t.1, t.2.1, t.2.2])
+                ((List.range wa.size).map Int.ofNat) with
+            | (.ok, some s) => (st, fmt (qs.map fun x => s.nearestTri (triAt wa) x dblMax))
+            | (e, _) => (st, statusName e)
+      | _, _ => (st, "bad-op")
   | "d2" :: ws => match parseFs? ws with
       | some [a, b, c, d, e, f, x, y, z] => (st, fmtF (dist2seg (v3 a b c) (v3 d e f) (v3 x y z)))
       | _ => (st, "bad-op")
@@ -115,10 +141,7 @@ def step (st : St) (line : String) : St × String :=
   | "bsphere" :: ws => match parseFs? ws with
       | some fs =>
           if fs.length % 3 == 0 && fs.length ≥ 3 then
-            let rec pts : List F → List (V3 F)
-              | a :: b :: c :: rest => v3 a b c :: pts rest
-              | _ => []
-            let (c, r) := boundingSphere (pts fs)
+            let (c, r) := boundingSphere (ptsOf fs)
             (st, fmtFs [c.x, c.y, c.z, r])
           else (st, "bad-op")
       | none => (st, "bad-op")
